@@ -8,9 +8,9 @@ use std::time::Instant;
 use serde::{Deserialize, Serialize};
 use serde_json::json;
 
-use crate::sim::{Sim, Stats, Violation};
-use crate::steps::Trace;
-use crate::{generate, rng, scenarios, shrink};
+use crate::engine::Engine;
+use crate::sim::{Stats, Violation};
+use crate::{rng, shrink};
 
 pub const DEFAULT_SEED: u64 = 20_250_925;
 pub const VERIF: &str = "/verif";
@@ -24,7 +24,7 @@ pub struct Replay {
     pub family: String,
     pub violation: Violation,
     pub original_steps: usize,
-    pub trace: Trace,
+    pub trace: serde_json::Value,
 }
 
 #[derive(Serialize, Deserialize, Clone, Debug)]
@@ -79,7 +79,7 @@ pub struct WorkerOut {
 
 /// Runs indices start, start+stride, ... < total in this process; prints a progress line per run and
 /// one JSON line at the end.
-pub fn worker(prop: &str, seed: u64, start: u64, stride: u64, total: u64) {
+pub fn worker<E: Engine>(prop: &str, seed: u64, start: u64, stride: u64, total: u64) {
     let mut out = WorkerOut::default();
     let stdout = std::io::stdout();
     let mut i = start;
@@ -89,8 +89,8 @@ pub fn worker(prop: &str, seed: u64, start: u64, stride: u64, total: u64) {
             let _ = writeln!(l, "R {i}");
             let _ = l.flush();
         }
-        let trace = generate::generate(rng::run_seed(seed, prop, i), prop);
-        let s = Sim::run(&trace, false);
+        let trace = E::generate(prop, rng::run_seed(seed, prop, i));
+        let s = E::run(&trace, false, false);
         out.evals += 1;
         if s.stats.faults.is_empty() {
             out.fault_free_runs += 1;
@@ -112,8 +112,8 @@ pub fn worker(prop: &str, seed: u64, start: u64, stride: u64, total: u64) {
                 *out.stats.other_property_hits.entry(v.prop.clone()).or_insert(0) += 1;
             }
         }
-        if start == 0 && out.samples.len() < 2 && trace.steps.len() <= 60 {
-            out.samples.push(json!({"index": i, "profile": trace.profile, "steps": trace.steps}));
+        if start == 0 && out.samples.len() < 2 && E::len(&trace) <= 60 {
+            out.samples.push(json!({"index": i, "trace": trace}));
         }
         i += stride;
     }
@@ -128,7 +128,7 @@ pub struct BatchResult {
     pub wall_s: f64,
 }
 
-pub fn run_batch(prop: &str, seed: u64, total: u64) -> BatchResult {
+pub fn run_batch<E: Engine>(prop: &str, seed: u64, total: u64) -> BatchResult {
     let t0 = Instant::now();
     let workers = std::env::var("VERIF_WORKERS")
         .ok()
@@ -140,7 +140,7 @@ pub fn run_batch(prop: &str, seed: u64, total: u64) -> BatchResult {
     let mut handles = vec![];
     for w in 0..workers {
         let mut child = Command::new(&exe)
-            .args(["worker", prop, &seed.to_string(), &w.to_string(), &workers.to_string(), &total.to_string()])
+            .args(["worker", E::FAMILY, prop, &seed.to_string(), &w.to_string(), &workers.to_string(), &total.to_string()])
             .stdout(Stdio::piped())
             .stderr(Stdio::null())
             .spawn()
@@ -198,40 +198,42 @@ pub fn replay_reproduces(path: &str) -> bool {
     }
 }
 
-pub fn replay(path: &str) -> i32 {
+pub fn replay_file(path: &str) -> Result<Replay, i32> {
     let Ok(s) = std::fs::read_to_string(path) else {
         eprintln!("harness error: cannot read {path}");
-        return 2;
+        return Err(2);
     };
-    let Ok(r) = serde_json::from_str::<Replay>(&s) else {
+    serde_json::from_str::<Replay>(&s).map_err(|_| {
         eprintln!("harness error: {path} is not a replay file");
+        2
+    })
+}
+
+pub fn replay<E: Engine>(r: &Replay) -> i32 {
+    let Ok(trace) = serde_json::from_value::<E::T>(r.trace.clone()) else {
+        eprintln!("harness error: trace of family {} does not parse", r.family);
         return 2;
     };
-    if r.family == "scenario" || r.family == "replication" {
-        let sim = Sim::run(&r.trace, true);
-        for l in &sim.trace_log {
-            println!("{l}");
-        }
-        if let Some(e) = &sim.harness_error {
-            println!("harness error: {e}");
-            return 2;
-        }
-        let hit = sim.violations.iter().find(|v| v.prop == r.property && v.oracle == r.oracle);
-        match hit {
-            Some(v) => {
-                println!("REPRODUCED property={} oracle={} step={}: {}", v.prop, v.oracle, v.step, v.detail);
-                if v.detail == r.violation.detail {
-                    println!("identical to the recorded violation");
-                }
-                1
+    let o = E::run(&trace, true, false);
+    for l in &o.log {
+        println!("{l}");
+    }
+    if let Some(e) = &o.harness_error {
+        println!("harness error: {e}");
+        return 2;
+    }
+    match o.violations.iter().find(|v| v.prop == r.property && v.oracle == r.oracle) {
+        Some(v) => {
+            println!("REPRODUCED property={} oracle={} step={}: {}", v.prop, v.oracle, v.step, v.detail);
+            if v.detail == r.violation.detail {
+                println!("identical to the recorded violation");
             }
-            None => {
-                println!("not reproduced: {} {}", r.property, r.oracle);
-                0
-            }
+            1
         }
-    } else {
-        crate::families::replay(&r)
+        None => {
+            println!("not reproduced: {} {}", r.property, r.oracle);
+            0
+        }
     }
 }
 
@@ -250,32 +252,22 @@ pub fn write_evidence(prop: &str, ev: &serde_json::Value) {
     std::fs::write(&path, serde_json::to_string_pretty(ev).unwrap()).expect("write evidence");
 }
 
-pub fn components_note() -> serde_json::Value {
-    json!({
-        "real_code": ["bevy_replicon (server, client, events, visibility, related entities, protocol)", "Bevy ECS/app/time", "postcard", "petgraph"],
-        "simulated": ["messaging backend (Net queues implementing the three channel contracts)", "clock (TimeUpdateStrategy::ManualDuration)", "connection life-cycle", "game logic (generated workload)"],
-    })
-}
-
-/// The replication-family check shared by most properties.
-pub fn check_replication(prop: &str, tier: &str) -> i32 {
+/// Directed scenarios + seeded search + report + evidence for one property.
+pub fn check<E: Engine>(prop: &str, tier: &str, level: &str, extra: serde_json::Value) -> i32 {
     let seed = seed_from_env();
     let total = budget(prop, tier);
     let known = load_known();
     let t0 = Instant::now();
 
     // 1. Directed scenarios: regressions of repaired findings must pass, known findings are reported.
-    let mut violations: Vec<(String, Violation, Trace, u64)> = vec![];
+    let mut violations: Vec<(String, Violation, E::T, u64)> = vec![];
     let mut known_lines = vec![];
     let mut scenario_runs = 0u64;
-    for sc in scenarios::all() {
-        if !sc.props.contains(&prop) {
-            continue;
-        }
+    for sc in E::directed(prop) {
         scenario_runs += 1;
         let is_known = known.iter().any(|k| k.id == sc.id && k.status == "known");
         let entry = known.iter().find(|k| k.id == sc.id && k.property == prop && k.status == "known");
-        let sim = Sim::run_opts(&sc.trace, false, is_known);
+        let sim = E::run(&sc.trace, false, is_known);
         if let Some(e) = &sim.harness_error {
             eprintln!("harness error in scenario {}: {e}", sc.id);
             return 2;
@@ -299,7 +291,7 @@ pub fn check_replication(prop: &str, tier: &str) -> i32 {
     }
 
     // 2. Seeded search.
-    let batch = run_batch(prop, seed, total);
+    let batch = run_batch::<E>(prop, seed, total);
     if !batch.out.harness_errors.is_empty() {
         for (i, e) in &batch.out.harness_errors {
             eprintln!("harness error at run {i}: {e}");
@@ -307,12 +299,12 @@ pub fn check_replication(prop: &str, tier: &str) -> i32 {
         return 2;
     }
     for i in &batch.crashes {
-        let trace = generate::generate(rng::run_seed(seed, prop, *i), prop);
+        let trace = E::generate(prop, rng::run_seed(seed, prop, *i));
         let v = Violation { prop: if prop == "C06" { "C06".into() } else { prop.to_string() }, oracle: "process_abort".into(), detail: format!("worker process died in run {i}"), step: 0 };
         violations.push((format!("run:{i}"), v, trace, *i));
     }
     if let Some((i, v)) = batch.out.violations.first() {
-        let trace = generate::generate(rng::run_seed(seed, prop, *i), prop);
+        let trace = E::generate(prop, rng::run_seed(seed, prop, *i));
         violations.push((format!("run:{i}"), v.clone(), trace, *i));
     }
 
@@ -320,26 +312,26 @@ pub fn check_replication(prop: &str, tier: &str) -> i32 {
     let mut exit = 0;
     let mut reported = vec![];
     if let Some((origin, v, trace, index)) = violations.first() {
-        let (min, runs) = if v.oracle == "process_abort" { (trace.clone(), 0) } else { shrink::shrink(trace, &v.prop, &v.oracle, 3000) };
-        let final_v = shrink::fails(&min, &v.prop, &v.oracle).unwrap_or(v.clone());
+        let (min, runs) = if v.oracle == "process_abort" { (trace.clone(), 0) } else { shrink::shrink::<E>(trace, &v.prop, &v.oracle, 3000) };
+        let final_v = shrink::fails::<E>(&min, &v.prop, &v.oracle).unwrap_or(v.clone());
         let r = Replay {
             property: prop.to_string(),
             oracle: v.oracle.clone(),
             seed,
             index: *index,
-            family: "replication".into(),
+            family: E::FAMILY.into(),
             violation: final_v.clone(),
-            original_steps: trace.steps.len(),
-            trace: min.clone(),
+            original_steps: E::len(trace),
+            trace: serde_json::to_value(&min).unwrap(),
         };
         let path = write_replay(&r);
         if v.oracle != "process_abort" && !replay_reproduces(&path) {
             eprintln!("harness error: violation from {origin} does not reproduce from {path}");
             return 2;
         }
-        println!("violation ({origin}, {} -> {} steps, {runs} shrink runs): {} {}: {}", trace.steps.len(), min.steps.len(), final_v.prop, final_v.oracle, final_v.detail);
+        println!("violation ({origin}, {} -> {} steps, {runs} shrink runs): {} {}: {}", E::len(trace), E::len(&min), final_v.prop, final_v.oracle, final_v.detail);
         println!("VIOLATION property={prop} replay={path}");
-        reported.push(json!({"origin": origin, "oracle": final_v.oracle, "detail": final_v.detail, "replay": path, "steps": min.steps.len()}));
+        reported.push(json!({"origin": origin, "oracle": final_v.oracle, "detail": final_v.detail, "replay": path, "steps": E::len(&min)}));
         exit = 1;
     }
     for l in &known_lines {
@@ -354,13 +346,13 @@ pub fn check_replication(prop: &str, tier: &str) -> i32 {
         "property_id": prop,
         "tier": tier,
         "seed": seed,
-        "level": "exploration",
+        "level": level,
         "wall_s": wall,
         "violations": if exit == 0 { 0 } else { 1 },
         "coverage": {
             "evaluations": batch.out.evals + scenario_runs,
             "distinct_nontrivial": st.nontrivial_sigs.len(),
-            "rule": "each evaluation is one simulated run (seeded profile + trace of steps executed against the real server and client apps). distinct_nontrivial counts distinct abstract state signatures (per node: last op kind, last fault kind, server running, per client connection/authorisation state, update-message lag bucket, buffered-mutate bucket, in-flight buckets per channel class, visibility policy) observed after at least one fault had fired and at least one update message had been applied by a client",
+            "rule": E::rule(),
             "samples": batch.out.samples,
             "runs_per_hour": (batch.out.evals as f64 / batch.wall_s.max(1e-9) * 3600.0) as u64,
             "simulated_frames": st.server_frames + st.client_frames,
@@ -381,7 +373,8 @@ pub fn check_replication(prop: &str, tier: &str) -> i32 {
             "worker_crashes": batch.crashes,
             "known_findings_reported": known_lines,
             "reported": reported,
-            "components": components_note(),
+            "components": E::components(),
+            "extra": extra,
         },
         "assumptions": [
             "channel contracts as stated in the property (no duplication or corruption of server->client traffic, no reordering on ordered channels)",
